@@ -229,5 +229,87 @@ def check(case):
     return {"nontrivial": nt, "classes": classes, "sample": {"F": F, "fmt": fmt, "before": text, "after": after}}
 
 
-ARMS = [HypArm("layout", lambda tier: _case(tier), check, signature=signature,
+# ------------------------------------------------------------------- several files, real sessions
+
+
+@st.composite
+def _multi_case(draw, tier):
+    n = draw(st.integers(2, 3))
+    files = []
+    for _ in range(n):
+        files.append({
+            "kind": draw(st.sampled_from(["plain", "plain", "external", "hasrepr", "both", "unchanged"])),
+            "v": draw(st.integers(0, 99)),
+            "has_import": draw(st.sampled_from([False, False, True])),
+            "nested_import": draw(st.sampled_from([False, False, True])),
+            "header_noise": draw(st.booleans()),
+        })
+    return {"files": files, "F": draw(st.sampled_from([["create"], ["create", "fix"], ["create", "fix", "trim", "update"]]))}
+
+
+def render_multi(case):
+    out = {}
+    for i, f in enumerate(case["files"]):
+        lines = []
+        if f["header_noise"]:
+            lines += ['"""module docstring with snapshot( inside"""', "import os  # ünïcödé", ""]
+        lines += ["from inline_snapshot import snapshot, outsource"]
+        if f["has_import"]:
+            lines += ["from inline_snapshot import external", "from inline_snapshot import HasRepr"]
+        lines += ["from vf_prelude import *", "", ""]
+        if f["nested_import"]:
+            lines += ["def helper_with_local_import():", "    from inline_snapshot import HasRepr, external", "    return HasRepr, external", "", ""]
+        lines.append("def test_a():")
+        k, v = f["kind"], f["v"]
+        if k == "plain":
+            lines.append(f"    assert {v} + 1 == snapshot()")
+        elif k == "unchanged":
+            lines.append(f"    assert {v} == snapshot({v})")
+        if k in ("external", "both"):
+            lines.append(f"    assert outsource('data {i} {v}') == snapshot()")
+        if k in ("hasrepr", "both"):
+            lines.append(f"    assert [Opaque({v % 5})] == snapshot()")
+        out[f"test_m{i}.py"] = "\n".join(lines) + "\n"
+    return out
+
+
+def check_multi(case):
+    import shutil
+
+    files = render_multi(case)
+    d = drivers.make_project(files)
+    try:
+        r = drivers.run_pytest(d, ["--inline-snapshot=" + ",".join(case["F"])])
+        if "INTERNALERROR" in r.stdout or r.returncode not in (0, 1):
+            raise Violation("session-broken", f"rc={r.returncode}\n{r.stdout[-2000:]}\n{r.stderr[-1000:]}")
+        after = {k: v.decode("utf-8") for k, v in r.files_after.items() if k in files}
+        # read back: the rewritten project passes with inline-snapshot disabled
+        r2 = drivers.run_pytest(d, ["--inline-snapshot=disable"])
+    finally:
+        shutil.rmtree(d, ignore_errors=True)
+    for name, before in files.items():
+        now = after[name]
+        try:
+            ast.parse(now)
+            a = oracles.masked(before, None)
+            b = oracles.masked(oracles.strip_added_imports(before, now), None)
+        except Exception as e:
+            raise Violation("unparsable", f"{name}: {e}\n{now}")
+        if a != b:
+            raise Violation("bytes-changed-outside-arguments",
+                            f"F={case['F']} {name} changed outside its snapshot arguments (only the import of a name the new "
+                            f"code needs may be added)\n--- before\n{before}\n--- after\n{now}")
+    if r2.returncode != 0:
+        raise Violation("rewritten-project-fails-when-disabled",
+                        f"F={case['F']}\n" + "\n".join(f"# {k}\n{v}" for k, v in after.items()) + r2.stdout[-2000:])
+    kinds = [f["kind"] for f in case["files"]]
+    nt = len(set(kinds) & {"external", "hasrepr", "both"}) >= 1 and len(set(kinds) & {"plain", "unchanged"}) >= 1
+    return {"nontrivial": nt, "classes": sorted(set(kinds)) + (["nested-import"] if any(f["nested_import"] for f in case["files"]) else []),
+            "sample": {"F": case["F"], "files": files, "after": after}}
+
+
+ARMS = [HypArm("multi_file_sessions", lambda tier: _multi_case(tier), check_multi,
+               budget={"quick": 48, "thorough": 1500}, shrink=False),
+        HypArm("layout", lambda tier: _case(tier), check, signature=signature,
                budget={"quick": 1500, "thorough": 100000})]
+
